@@ -100,8 +100,6 @@ theorem hist_ok : ∀ ev ∈ hist, ev.ok ∧ isReset ev = false := by
 
 theorem hist_max : (run (fun _ => true) c0 hist).1.sess.nextOut ≤ sysMaxsize + 1 := by decide +kernel
 
-theorem hist_unbounded : ∀ ev ∈ hist, boundedResend ev = false := by decide
-
 theorem hist5_noResend : ∀ ev ∈ hist.take 5, isResendReq ev = false := by decide
 
 end AsyncFix.Props.C05
